@@ -98,25 +98,30 @@ func ruleMatcherIndex(c *Ctx, rule string) {
 	bad := ""
 	n := 0
 	instrsOf(fn, func(in ssa.Instruction) {
-		var sl ssa.Value
+		var sls []ssa.Value
 		switch x := in.(type) {
 		case *ssa.Range:
-			sl = x.X
+			sls = append(sls, x.X)
 		case *ssa.IndexAddr:
-			sl = x.X
+			sls = append(sls, x.X)
 		case *ssa.Index:
-			sl = x.X
+			sls = append(sls, x.X)
+		case *ssa.Call:
+			// a search or sort helper applied to the slice (slices.IndexFunc, slices.SortFunc)
+			sls = append(sls, x.Call.Args...)
 		default:
 			return
 		}
-		st, ok := sl.Type().Underlying().(*types.Slice)
-		if !ok || !isPtrToNamed(st.Elem(), c.A.RefT) {
-			return
-		}
-		n++
-		for _, r := range c.P.Roots(sl, TraceOpts{NoParams: true}) {
-			if r != ssa.Value(param) {
-				bad = fmt.Sprintf("%s: iterates %s `%s`, not the parameter", c.P.InstrPos(in), fmt.Sprintf("%T", r), r.String())
+		for _, sl := range sls {
+			st, ok := sl.Type().Underlying().(*types.Slice)
+			if !ok || !isPtrToNamed(st.Elem(), c.A.RefT) {
+				continue
+			}
+			n++
+			for _, r := range c.P.Roots(sl, TraceOpts{NoParams: true}) {
+				if r != ssa.Value(param) {
+					bad = fmt.Sprintf("%s: iterates %s `%s`, not the parameter", c.P.InstrPos(in), fmt.Sprintf("%T", r), r.String())
+				}
 			}
 		}
 	})
@@ -374,6 +379,45 @@ func (c *Ctx) contextLiterals() []ctxLiteral {
 
 // ruleReplaceDecision (C08.6): whether the storing function replaces the reference at the given position or appends a
 // new one is decided by the position alone (0 <= pos < len) — never by the content of the old reference.
+// isNewRecordAppend: append(list, rec) to an index list where rec is a record built in this function (a fresh
+// composite literal) - the append of the new variant, as opposed to the element copies of a filter loop.
+func (c *Ctx) isNewRecordAppend(in ssa.Instruction) bool {
+	call, ok := in.(*ssa.Call)
+	if !ok {
+		return false
+	}
+	b, ok := call.Call.Value.(*ssa.Builtin)
+	if !ok || b.Name() != "append" || len(call.Call.Args) < 2 {
+		return false
+	}
+	sl, ok := call.Call.Args[0].Type().Underlying().(*types.Slice)
+	if !ok || !isPtrToNamed(sl.Elem(), c.A.RefT) {
+		return false
+	}
+	// variadic packing: append(list, new [1]*Ref{rec}[:]...)
+	fresh := false
+	var elems []ssa.Value
+	if s2, ok := call.Call.Args[1].(*ssa.Slice); ok {
+		if al, ok := s2.X.(*ssa.Alloc); ok && al.Referrers() != nil {
+			for _, r := range *al.Referrers() {
+				if ia, ok := r.(*ssa.IndexAddr); ok && ia.Referrers() != nil {
+					for _, u := range *ia.Referrers() {
+						if st, ok := u.(*ssa.Store); ok && st.Addr == ssa.Value(ia) {
+							elems = append(elems, st.Val)
+						}
+					}
+				}
+			}
+		}
+	}
+	for _, e := range elems {
+		if _, isAlloc := c.An.canon(e).(*ssa.Alloc); isAlloc {
+			fresh = true
+		}
+	}
+	return fresh
+}
+
 func ruleReplaceDecision(c *Ctx, rule string) {
 	if !c.Need(rule, "storeResp") {
 		return
@@ -387,12 +431,8 @@ func ruleReplaceDecision(c *Ctx, rule string) {
 	}
 	var appendIn ssa.Instruction
 	instrsOf(sr, func(in ssa.Instruction) {
-		if call, ok := in.(*ssa.Call); ok {
-			if b, ok := call.Call.Value.(*ssa.Builtin); ok && b.Name() == "append" && len(call.Call.Args) > 0 {
-				if sl, ok := call.Call.Args[0].Type().Underlying().(*types.Slice); ok && isPtrToNamed(sl.Elem(), c.A.RefT) {
-					appendIn = in
-				}
-			}
+		if c.isNewRecordAppend(in) {
+			appendIn = in
 		}
 	})
 	desc := "append-or-replace is decided by the position alone"
@@ -564,10 +604,37 @@ func ruleLocationLoopComplete(c *Ctx, rule string) {
 		return
 	}
 	n := 0
-	for _, fn := range c.reachableFrom(c.A.F("invalidate")) {
-		hasKey := false
+	tree := c.reachableFrom(c.A.F("invalidate"))
+	keyFn := map[*ssa.Function]bool{}
+	for _, fn := range tree {
 		instrsOf(fn, func(in ssa.Instruction) {
 			if cc := callOf(in); cc != nil && cc.IsInvoke() && isURLKeyerMethod(cc) {
+				keyFn[fn] = true
+			}
+		})
+	}
+	// computesKey: the instruction computes a URL key itself or calls a helper that does
+	computesKey := func(in ssa.Instruction) bool {
+		cc := callOf(in)
+		if cc == nil {
+			return false
+		}
+		if cc.IsInvoke() && isURLKeyerMethod(cc) {
+			return true
+		}
+		if sc := cc.StaticCallee(); sc != nil && c.P.IsRepoFunc(sc) {
+			for g := range c.P.StaticTree(sc) {
+				if keyFn[g] {
+					return true
+				}
+			}
+		}
+		return false
+	}
+	for _, fn := range tree {
+		hasKey := false
+		instrsOf(fn, func(in ssa.Instruction) {
+			if computesKey(in) {
 				hasKey = true
 			}
 		})
@@ -600,6 +667,21 @@ func ruleLocationLoopComplete(c *Ctx, rule string) {
 				}
 			}
 			if !strings.Contains(b.Comment, "loop") && !strings.Contains(b.Comment, "range") {
+				continue
+			}
+			// the loop body computes a key (directly or in a helper): it is the loop over the location fields
+			inLoop := false
+			for _, lb := range fn.Blocks {
+				if lb != b && (!reachableAvoiding(lb, b, nil) || !reachableAvoiding(b, lb, nil)) {
+					continue
+				}
+				for _, in := range lb.Instrs {
+					if computesKey(in) {
+						inLoop = true
+					}
+				}
+			}
+			if !inLoop {
 				continue
 			}
 			n++
@@ -635,5 +717,222 @@ func ruleLocationLoopComplete(c *Ctx, rule string) {
 	}
 	if n == 0 {
 		c.Undecided(rule, "location-loop", "a loop over the location headers exists", "not found")
+	}
+}
+
+// ruleDurationSums (C01.10 / C12.8 / C13.7): ages, lifetimes and directive windows can be as large as the largest
+// duration (a saturated delta-seconds value, a Date centuries in the past), so every sum of durations on the exchange
+// must be wrap-safe: either the sum is compared with zero or with one of its operands in the same function (the body of a
+// saturating helper), or it is handed to max/min together with one of its own operands (`max(a+b, b)`).
+func ruleDurationSums(c *Ctx, rule string) {
+	desc := "every sum of durations on the exchange saturates instead of wrapping around"
+	var fns []*ssa.Function
+	for fn := range c.A.Reach {
+		fns = append(fns, fn)
+	}
+	sort.Slice(fns, func(i, j int) bool { return FuncName(fns[i]) < FuncName(fns[j]) })
+	n := 0
+	for _, fn := range fns {
+		idx := 0
+		instrsOf(fn, func(in ssa.Instruction) {
+			add, ok := in.(*ssa.BinOp)
+			if !ok || add.Op != token.ADD || !typeIs(add.Type(), "time", "Duration") {
+				return
+			}
+			_, lc := add.X.(*ssa.Const)
+			_, rc := add.Y.(*ssa.Const)
+			if lc && rc {
+				return
+			}
+			idx++
+			n++
+			key := fmt.Sprintf("duration-sum fn=%s#%d", c.P.ShortName(fn), idx)
+			where := c.P.InstrPos(add) + " `" + add.String() + "`"
+			isOperand := func(v ssa.Value) bool {
+				return c.An.sameCanon(v, add.X) || c.An.sameCanon(v, add.Y)
+			}
+			isSum := func(v ssa.Value) bool { return v == ssa.Value(add) || c.An.canon(v) == ssa.Value(add) }
+			safe := ""
+			instrsOf(fn, func(i2 ssa.Instruction) {
+				switch y := i2.(type) {
+				case *ssa.BinOp:
+					switch y.Op {
+					case token.LSS, token.LEQ, token.GTR, token.GEQ:
+					default:
+						return
+					}
+					for _, pr := range [][2]ssa.Value{{y.X, y.Y}, {y.Y, y.X}} {
+						if !isSum(pr[0]) {
+							continue
+						}
+						if k, ok := constInt(pr[1]); ok && k == 0 {
+							safe = "sum compared with zero at " + c.P.InstrPos(y)
+						}
+						if isOperand(pr[1]) {
+							safe = "sum compared with its operand at " + c.P.InstrPos(y)
+						}
+					}
+				case *ssa.Call:
+					b, ok := y.Call.Value.(*ssa.Builtin)
+					if !ok || (b.Name() != "max" && b.Name() != "min") {
+						return
+					}
+					hasSum, hasOp := false, false
+					for _, a := range y.Call.Args {
+						if isSum(a) {
+							hasSum = true
+						} else if isOperand(a) {
+							hasOp = true
+						}
+					}
+					if hasSum && hasOp {
+						safe = b.Name() + "(sum, operand) at " + c.P.InstrPos(y)
+					}
+				}
+			})
+			if safe != "" {
+				c.Pass(rule, key, desc, where+": "+safe)
+			} else {
+				c.Fail(rule, key, desc, where+": plain `+` on durations that may be saturated (Date centuries old, delta-seconds of 2^63, stale-if-error=9223372036); the sum wraps negative: an ancient response looks brand new, a huge window looks closed", where)
+			}
+		})
+	}
+	if n == 0 {
+		c.Undecided(rule, "duration-sum", desc, "no sum of durations reachable from RoundTrip")
+	}
+}
+
+// ruleIndexValuesUTF8Safe (C19.5 / C09.6): the variant index is serialised with encoding/json, which replaces bytes that are
+// not valid UTF-8 by U+FFFD. A request value that comes back changed from the store never compares equal to the request
+// again: the variant is never selected and every request appends another reference. So the (single, C04.4) value
+// normaliser must hand out only values that survive JSON: constants, results of ASCII encoders, values tested with
+// utf8.ValidString, or results of repo functions with that property.
+func ruleIndexValuesUTF8Safe(c *Ctx, rule string) {
+	if !c.Need(rule, "storeResp", "writeIndex") {
+		return
+	}
+	desc := "nominated request values written to the JSON-encoded index survive the encoding (valid UTF-8 or ASCII-encoded)"
+	usesJSON := false
+	for _, g := range c.reachableFrom(c.A.F("writeIndex")) {
+		if callsWhere(g, func(cc *ssa.CallCommon) bool {
+			return callIsPkgFunc(cc, "encoding/json", "Marshal") || callIsPkgFunc(cc, "encoding/json", "MarshalIndent") || callIsMethod(cc, "encoding/json", "Encoder", "Encode")
+		}) {
+			usesJSON = true
+		}
+	}
+	if !usesJSON {
+		c.Pass(rule, "index-values-utf8-safe", desc, "the index writer does not use encoding/json")
+		return
+	}
+	isNorm := func(fn *ssa.Function) bool {
+		ps, rs := sigParams(fn), sigResults(fn)
+		return fn.Signature.Recv() == nil && fn.Parent() == nil && len(ps) == 2 && len(rs) == 1 && isBasicKind(ps[0], types.String) && isBasicKind(ps[1], types.String) && isBasicKind(rs[0], types.String)
+	}
+	var tops []*ssa.Function
+	all := c.reachableFrom(c.A.F("storeResp"))
+	calledByNorm := map[*ssa.Function]bool{}
+	for _, fn := range all {
+		if isNorm(fn) {
+			for g := range c.P.StaticTree(fn) { // static calls only: a yield inside resolves to unrelated loop bodies
+				if g != fn {
+					calledByNorm[g] = true
+				}
+			}
+		}
+	}
+	for _, fn := range all {
+		if isNorm(fn) && !calledByNorm[fn] {
+			tops = append(tops, fn)
+		}
+	}
+	if len(tops) != 1 {
+		c.Undecided(rule, "index-values-utf8-safe", desc, fmt.Sprintf("expected one value normaliser on the storing side, found %d", len(tops)))
+		return
+	}
+	norm := tops[0]
+	encoders := func(cc *ssa.CallCommon) bool {
+		return callIsPkgFunc(cc, "strconv", "QuoteToASCII") || callIsPkgFunc(cc, "strconv", "Quote") || callIsPkgFunc(cc, "strconv", "QuoteToGraphic") ||
+			callIsPkgFunc(cc, "encoding/hex", "EncodeToString") || callIsMethod(cc, "encoding/base64", "Encoding", "EncodeToString") ||
+			callIsPkgFunc(cc, "net/url", "QueryEscape") || callIsPkgFunc(cc, "net/url", "PathEscape") || callIsPkgFunc(cc, "strconv", "Itoa") || callIsPkgFunc(cc, "strconv", "FormatInt") || callIsPkgFunc(cc, "strconv", "FormatUint")
+	}
+	validated := func(v ssa.Value, blk *ssa.BasicBlock) bool {
+		for _, dc := range dominatingConds(blk) {
+			for _, lf := range condLeaves(dc.cond, dc.onTrue) {
+				call, ok := lf.v.(*ssa.Call)
+				if !ok || !lf.val {
+					continue
+				}
+				if (callIsPkgFunc(&call.Call, "unicode/utf8", "ValidString") || callIsPkgFunc(&call.Call, "unicode/utf8", "Valid")) && c.An.sameCanon(call.Call.Args[0], v) {
+					return true
+				}
+			}
+		}
+		return false
+	}
+	var why string
+	var safeFn func(fn *ssa.Function, depth int) bool
+	var safeVal func(v ssa.Value, blk *ssa.BasicBlock, depth int) bool
+	safeVal = func(v ssa.Value, blk *ssa.BasicBlock, depth int) bool {
+		if depth > 8 {
+			return false
+		}
+		if validated(v, blk) {
+			return true
+		}
+		switch x := v.(type) {
+		case *ssa.Const:
+			return true
+		case *ssa.BinOp:
+			return x.Op == token.ADD && safeVal(x.X, blk, depth+1) && safeVal(x.Y, blk, depth+1)
+		case *ssa.Phi:
+			for i, e := range x.Edges {
+				if !safeVal(e, x.Block().Preds[i], depth+1) {
+					return false
+				}
+			}
+			return true
+		case *ssa.Call:
+			if encoders(&x.Call) {
+				return true
+			}
+			if sc := x.Call.StaticCallee(); sc != nil && c.P.IsRepoFunc(sc) && len(sc.Blocks) > 0 {
+				return safeFn(sc, depth+1)
+			}
+		case *ssa.UnOp:
+			if al, ok := x.X.(*ssa.Alloc); ok {
+				for _, st := range c.P.cellStores(al) {
+					if !safeVal(st.Val, st.Block(), depth+1) {
+						return false
+					}
+				}
+				return true
+			}
+		}
+		why = fmt.Sprintf("%s `%s`", c.P.Pos(v.Pos()), v.String())
+		return false
+	}
+	memo := map[*ssa.Function]int{}
+	safeFn = func(fn *ssa.Function, depth int) bool {
+		if r, ok := memo[fn]; ok {
+			return r == 1
+		}
+		memo[fn] = 1 // optimistic for recursion
+		ok := true
+		for _, b := range fn.Blocks {
+			if r, isRet := b.Instrs[len(b.Instrs)-1].(*ssa.Return); isRet && len(r.Results) == 1 {
+				if !safeVal(r.Results[0], b, depth) {
+					ok = false
+				}
+			}
+		}
+		if !ok {
+			memo[fn] = 2
+		}
+		return ok
+	}
+	if safeFn(norm, 0) {
+		c.Pass(rule, "index-values-utf8-safe", desc, c.P.ShortName(norm)+": every returned value is validated or ASCII-encoded")
+	} else {
+		c.Fail(rule, "index-values-utf8-safe", desc, c.P.ShortName(norm)+": returns request bytes that were never checked for valid UTF-8 ("+why+"); `X-Flavor: caf\\xe9` comes back from the JSON index as `caf\\ufffd`, never matches again, and each request appends one more reference")
 	}
 }
